@@ -608,7 +608,7 @@ def _twin_expand(sub, args):
         ok, key = explorer.guarded(sub, model, hist, op, one)
         if ok and key is not None:
             out.append((key, op))
-    return [out]
+    return out
 
 
 def twin_bfs(ctx):
